@@ -8,19 +8,19 @@ Open Scope N_scope.
    an in-flight request, silence past the read timeout and a heartbeat failure, in any order and interleaving *)
 Definition cfg1 : list acfg := [ACfg [1; 2] true None].
 Definition ev1 : list env := [rel 0; rel 0; EDeliver 0 DOther; ETimeout 0; EHbFail 0].
-Lemma inst1_ok : instance_ok 1000000 cfg1 ev1 = true.
+Lemma inst1_ok : instance_ok fuel_1m cfg1 ev1 = true.
 Proof. vm_compute. reflexivity. Qed.
 Lemma inst1_terminates : level 28 (init cfg1 ev1) = [].
 Proof. vm_compute. reflexivity. Qed.
 
-(* a peer whose first datagram is a Setup, then every trigger *)
+(* a peer whose first datagram is a Setup (the monitor starts while triggers arrive), then every trigger *)
 Definition cfg3 : list acfg := [ACfg [1] true (Some DSetup)].
 Definition ev3 : list env := [rel 0; ETimeout 0; EHbFail 0].
-Lemma inst3_ok : instance_ok 1000000 cfg3 ev3 = true.
+Lemma inst3_ok : instance_ok fuel_1m cfg3 ev3 = true.
 Proof. vm_compute. reflexivity. Qed.
 
-(* a peer whose first datagram is a release (F41: forgotten_ok does not apply), retransmitted, then silence *)
+(* a peer whose first datagram is a release, retransmitted, then silence: forgotten like any other *)
 Definition cfg2 : list acfg := [ACfg [1] false (Some DRelease)].
 Definition ev2 : list env := [rel 0; ETimeout 0].
-Lemma inst2_ok : instance_ok 1000000 cfg2 ev2 = true.
+Lemma inst2_ok : instance_ok fuel_1m cfg2 ev2 = true.
 Proof. vm_compute. reflexivity. Qed.
